@@ -3,7 +3,7 @@
 "Valid" per format (the generator's contract, DESIGN §4 C02):
   0   codes 0..255, glyph ids 0..255
   2   one-byte codes inside one span, two-byte codes whose lead byte lies outside that span
-  4   codes 0..0xFFFE (U+FFFF is the format's terminator segment)
+  4   codes 0..0xFFFF (a map that reaches U+FFFF is followed by the format's own closing segment)
   6   codes inside one window of at most 65535 entries below 0x10000
   12  any scalar value 0..0x10FFFF, any glyph id
   13  like 12 (many-to-one)
@@ -14,12 +14,12 @@ every format treats as "unmapped" (compared modulo glyph 0).
 
 SHAPES = {
     0: ["empty", "notdef_only", "single", "sparse", "dense", "gid0"],
-    2: ["empty", "notdef_only", "single", "singles", "twobyte", "mixed", "shared", "highgid", "gid0"],
-    4: ["empty", "notdef_only", "single", "sparse", "runs", "const", "random_runs", "mixed", "neg_delta", "wrap", "near_ffff",
+    2: ["empty", "notdef_only", "single", "singles", "twobyte", "top_row", "mixed", "shared", "highgid", "gid0"],
+    4: ["empty", "notdef_only", "single", "sparse", "runs", "const", "random_runs", "mixed", "neg_delta", "wrap", "near_ffff", "bmp_edge",
         "split", "dense", "gid0", "many_segments"],
     6: ["empty", "notdef_only", "single", "window", "holes", "top", "gid0"],
-    12: ["empty", "notdef_only", "single", "sparse", "runs", "const", "mixed", "cross_bmp", "planes", "gid0", "last_scalar"],
-    13: ["empty", "notdef_only", "single", "const_runs", "mixed", "cross_bmp", "last_resort", "gid0"],
+    12: ["empty", "notdef_only", "single", "sparse", "runs", "const", "mixed", "cross_bmp", "bmp_edge", "planes", "gid0", "last_scalar"],
+    13: ["empty", "notdef_only", "single", "const_runs", "mixed", "cross_bmp", "bmp_edge", "last_resort", "gid0"],
     14: ["empty", "default_only", "nondefault_only", "mixed", "long_default_runs", "many_selectors"],
 }
 BIG_SHAPES = {4: ["big_bmp", "highgid"], 12: ["big", "highgid"], 13: ["big"], 6: ["big_window"], 14: ["big"]}
@@ -71,7 +71,9 @@ def gen_map(rnd, fmt, shape, n):
         return _gen6(rnd, shape, n)
     if fmt == 14:
         raise ValueError("use gen_uvs")
-    hi = 0xFFFE if fmt == 4 else 0x10FFFF
+    hi = 0xFFFF if fmt == 4 else 0x10FFFF
+    if shape == "bmp_edge":
+        return _bmp_edge(rnd, fmt, n, hi)
     if shape == "notdef_only":
         return {rnd.randrange(hi): 0 for _ in range(rnd.randint(1, 5))}
     if shape == "single":
@@ -129,10 +131,10 @@ def gen_map(rnd, fmt, shape, n):
             m[c1 + i] = 1 + i
         return m
     if shape == "near_ffff":
-        for c in range(0xFFF0, 0xFFFF):
+        for c in range(0xFFF0, 0x10000):
             if rnd.random() < 0.8:
                 m[c] = _gid(rnd, n)
-        m[0xFFFE] = _gid(rnd, n)
+        m[rnd.choice([0xFFFE, 0xFFFF])] = _gid(rnd, n)
         return m
     if shape == "cross_bmp":
         k = rnd.randint(2, 40)
@@ -198,11 +200,55 @@ def gen_map(rnd, fmt, shape, n):
     raise ValueError((fmt, shape))
 
 
+def _bmp_edge(rnd, fmt, n, hi):
+    """Maps whose top end sits on the last BMP code points (U+FFFE, U+FFFF) and, where the format allows it, the
+    first supplementary ones: alone, as the end of a run, after a gap, with consecutive / constant / random glyph ids."""
+    m = {}
+    kind = rnd.randrange(7)
+    g0 = _gid(rnd, n)
+    gids = lambda k: [min(n - 1, g0 + i) if n > 1 else 0 for i in range(k)] if rnd.random() < 0.6 else [_gid(rnd, n) for _ in range(k)]
+    if kind == 0:
+        m[0xFFFF] = g0
+    elif kind == 1:
+        m[0xFFFE] = g0
+    elif kind == 2:                      # run ending exactly at U+FFFF
+        k = rnd.choice([2, 3, 4, 5, 9, 40])
+        for c, g in zip(range(0x10000 - k, 0x10000), gids(k)):
+            m[c] = g
+    elif kind == 3:                      # run ending at U+FFFE
+        k = rnd.choice([2, 4, 9])
+        for c, g in zip(range(0xFFFF - k, 0xFFFF), gids(k)):
+            m[c] = g
+    elif kind == 4:                      # U+FFFF after a gap of one
+        m[0xFFFD], m[0xFFFF] = _gid(rnd, n), _gid(rnd, n)
+    elif kind == 5:                      # both, plus something low
+        m[0x20], m[0xFFFE], m[0xFFFF] = _gid(rnd, n), _gid(rnd, n), _gid(rnd, n)
+    else:                                # run across the plane boundary where possible
+        k = rnd.choice([2, 3, 8])
+        for c, g in zip(range(0x10000 - k, 0x10000 + k), gids(2 * k)):
+            if c <= hi:
+                m[c] = g
+    if fmt == 13:
+        m = {c: g0 for c in m} if rnd.random() < 0.5 else m
+    if hi > 0xFFFF and rnd.random() < 0.5:
+        m[rnd.choice([0x10000, 0x10001])] = _gid(rnd, n)
+    if rnd.random() < 0.4:
+        _run(m, rnd, rnd.choice([0x20, 0x4E00]), rnd.choice([1, 5, 30]), n, "run", hi)
+    return m
+
+
 def _gen2(rnd, shape, n):
     m = {}
     span_lo = rnd.choice([0x00, 0x20, 0x41])
     span_hi = rnd.choice([0x7F, 0x80, 0x5A])
-    leads = [b for b in range(0x81, 0xFF)]
+    leads = [b for b in range(0x81, 0x100)]
+    if shape == "top_row":
+        # the last lead byte and the last trail bytes: codes up to 0xFFFF
+        for lo in range(rnd.choice([0xF0, 0xFE, 0xFF]), 0x100):
+            m[0xFF00 | lo] = _gid(rnd, n)
+        for lead in rnd.sample(leads, rnd.randint(0, 3)):
+            m[(lead << 8) | 0xFF] = _gid(rnd, n)
+        return m
     if shape == "notdef_only":
         return {rnd.randrange(span_lo, span_hi + 1): 0}
     if shape == "single":
@@ -300,7 +346,7 @@ def gen_uvs(rnd, shape, n, base_codes):
         if want_non:
             k = rnd.choice([1, 3, 20, 3000 if shape == "big" else 60])
             for _ in range(k):
-                c = rnd.choice([rnd.randrange(0x20, 0x3000), rnd.randrange(0x10000, 0x30000), 0x10FFFF, 0])
+                c = rnd.choice([rnd.randrange(0x20, 0x3000), rnd.randrange(0x10000, 0x30000), 0x10FFFF, 0, 0xFFFE, 0xFFFF, 0x10000])
                 if c not in d:
                     d[c] = rnd.randrange(1, n)
         if d:
